@@ -676,6 +676,43 @@ def explore_c13(rng, tier, res, deep=False):
                 res.violations.append({"property": "C13", "query": q, "document": v, "observed": "PY:" + type(exc).__name__ + ": " + str(exc)[:100],
                                        "expected": "result or JSONPathError", "what": "evaluation raised a non-JSONPath exception"})
                 break
+    # JSONPathErrors raised DURING evaluation by a registered function (with and without a token, every class of the
+    # hierarchy), under filters on arrays and on objects, nested and in arguments: the error that reaches the caller is a
+    # JSONPathError whose string form can be produced
+    from jsonpath_rfc9535.function_extensions import ExpressionType as _ET, FilterFunction as _FF
+    from jsonpath_rfc9535 import exceptions as _ex
+
+    for cls_name in ("JSONPathTypeError", "JSONPathError", "JSONPathSyntaxError", "JSONPathIndexError", "JSONPathNameError", "JSONPathRecursionError"):
+        ecls = getattr(_ex, cls_name, None) or getattr(jp, cls_name)
+        for with_token in (False, True):
+            class Boom(_FF):
+                arg_types = [_ET.VALUE]
+                return_type = _ET.LOGICAL
+
+                def __call__(self, v, _ecls=ecls, _wt=with_token):
+                    tok = None
+                    if _wt:
+                        from jsonpath_rfc9535.tokens import Token, TokenType
+                        tok = Token(TokenType.FUNCTION, "boom", 3, "$[?boom(@)]")
+                    raise _ecls("boom says no", token=tok)
+
+            benv = jp.JSONPathEnvironment()
+            benv.function_extensions["boom"] = Boom()
+            for q in ("$[?boom(@)]", "$[?boom(@.a) || @.b]", "$..[?boom(@)]", "$[?@[?boom(@)]]", "$[?!boom(1)]", "$[?count(@[?boom(@)]) > 0]"):
+                for v in ([1, 2], {"k": 1, "l": [1]}, [[1]], {"k": {"a": 1}}):
+                    evals += 1
+                    try:
+                        benv.find(q, v)
+                    except jp.JSONPathError as exc:
+                        try:
+                            str(exc)
+                            res.count("eval-error-from-function")
+                        except Exception as exc2:  # noqa: BLE001
+                            res.violations.append({"property": "C13", "query": q, "document": v, "observed": repr(exc2)[:200], "expected": "a string",
+                                                   "what": f"str() of a {cls_name} raised during evaluation by a function ({'with' if with_token else 'without'} a token) raised"})
+                    except Exception as exc:  # noqa: BLE001
+                        res.violations.append({"property": "C13", "query": q, "document": v, "observed": "PY:" + type(exc).__name__ + ": " + str(exc)[:100],
+                                               "expected": "result or JSONPathError", "what": "a JSONPathError raised by a function during evaluation reached the caller as another exception"})
     res.count("function-argument-matrix", len(fq))
     res.evaluations += evals
     res.count("evaluations-of-compiled", evals)
